@@ -18,7 +18,7 @@ use std::collections::{BTreeMap, BTreeSet, HashSet};
 pub const DEF: PropDef = PropDef {
     id: "C15",
     level: "model_checking",
-    rule: "Part 1: states = complete physical states (both maps + counters of a real Dictionary and a real QuotedTripleStore::new()) reached breadth-first from the empty pair by Dictionary::encode(t), t in {a,b,c,\"\"}, and QuotedTripleStore::encode(x,y,z) over ALL triples of identifiers handed out so far (plain or quoted, result nesting <= 2), depth <= 5 (thorough: 6), de-duplicated on the physical state; in every state every identifier ever handed out (and unseen ones) is decoded and looked up in both directions. Part 1b (related terms): every sequence, repetitions included, of length <= 5 (thorough 6) of Dictionary::encode over eight RELATED values (a, A, ' a', 'a ', aa, the empty string, precomposed and decomposed e-acute), followed by one quoted triple over its first and last identifier, same observation table after every call (plain tree search). Part 1c (counter thresholds): Dictionary with next_id = 2^31 - k and QuotedTripleStore with next_qt_id = 2^32 - k, k in 1..3, five fresh encodes each: every call must panic or hand out an unused identifier of the right range that decodes back. Part 2: operand histories = all operation sequences of length <= 3 (thorough: 4) over the first alphabet (10 operations: triple, same triple in a named graph, quad with literal, empty named graph, quoted-triple subject through the string API, quoted-triple object in a named graph, nested quoted triple, two add_tagged_triple) and of length <= 2 (thorough: 3) over the full alphabet (16 operations: + a quoted term that no quad refers to, a quoted term as OBJECT component and as PREDICATE component of a quoted term, a probability seed on a quoted-subject triple, a graph name also used as a subject, case / white-space twins of a term and a literal), executed on fresh real databases over a shared vocabulary inserted in different orders; histories ending in the same complete physical state (identifier stores, counters, quad index dump, seeds) are merged; every ORDERED pair of distinct databases whose histories both lie in one of the two bounds is united and a.union(&b) is compared lexically with the union of the abstract datasets (quads, graph identities, quoted terms incl. unreferenced ones, seeds). A pair is non-trivial when some identifier denotes different terms in a and b (ids clash); distinct = distinct (abstract dataset of a, abstract dataset of b) among the non-trivial pairs, plus the distinct part-1 states of depth <= 5 that hold >= 1 quoted triple and >= 2 plain terms (the depth-6 ones are counted in counters.dict_nontrivial_states but not shipped as a set, so distinct_nontrivial is a lower bound), plus the distinct related-term dictionaries with >= 2 terms",
+    rule: "Part 1: states = complete physical states (both maps + counters of a real Dictionary and a real QuotedTripleStore::new()) reached breadth-first from the empty pair by Dictionary::encode(t), t in {a,b,c,\"\"}, and QuotedTripleStore::encode(x,y,z) over ALL triples of identifiers handed out so far (plain or quoted, result nesting <= 2), depth <= 5 (thorough: 6), de-duplicated on the physical state; in every state every identifier ever handed out (and unseen ones) is decoded and looked up in both directions. Part 1b (related terms): every sequence, repetitions included, of length <= 5 (thorough 6) of Dictionary::encode over eight RELATED values (a, A, ' a', 'a ', aa, the empty string, precomposed and decomposed e-acute), followed by one quoted triple over its first and last identifier, same observation table after every call (plain tree search). Part 1c (counter thresholds): Dictionary with next_id = 2^31 - k and QuotedTripleStore with next_qt_id = 2^32 - k, k in 1..3, five fresh encodes each: every call must panic or hand out an unused identifier of the right range that decodes back. Part 2: operand histories = all operation sequences of length <= 3 (thorough: 4) over the first alphabet (10 operations: triple, same triple in a named graph, quad with literal, empty named graph, quoted-triple subject through the string API, quoted-triple object in a named graph, nested quoted triple, two add_tagged_triple) and of length <= 2 over the full alphabet (thorough: also length 3 against every partner of length <= 1) (16 operations: + a quoted term that no quad refers to, a quoted term as OBJECT component and as PREDICATE component of a quoted term, a probability seed on a quoted-subject triple, a graph name also used as a subject, case / white-space twins of a term and a literal), executed on fresh real databases over a shared vocabulary inserted in different orders; histories ending in the same complete physical state (identifier stores, counters, quad index dump, seeds) are merged; every ORDERED pair of distinct databases whose histories both lie in one of the two bounds is united and a.union(&b) is compared lexically with the union of the abstract datasets (quads, graph identities, quoted terms incl. unreferenced ones, seeds). A pair is non-trivial when some identifier denotes different terms in a and b (ids clash); distinct = distinct (abstract dataset of a, abstract dataset of b) among the non-trivial pairs, plus the distinct part-1 states of depth <= 5 that hold >= 1 quoted triple and >= 2 plain terms (the depth-6 ones are counted in counters.dict_nontrivial_states but not shipped as a set, so distinct_nontrivial is a lower bound), plus the distinct related-term dictionaries with >= 2 terms",
     assumptions: &[
         "term alphabet part 1: a, b, c and the empty string; quoted components range over every identifier handed out so far; nesting <= 2; depth <= 5 quick / 6 thorough; part 1b: a, A, ' a', 'a ', aa, empty string, U+00E9, e+U+0301",
         "counter thresholds (part 1c) are reached by setting the public counter fields instead of making 2^31 calls: what encode returns for a fresh term depends on the counter only; a panic (the Dictionary's exhaustion assert, an overflow check) is accepted, an identifier of the wrong range or a repeated identifier is not",
@@ -647,7 +647,7 @@ enum UOp {
 }
 /// first alphabet (histories up to length 3, thorough 4)
 const UOPS_OLD: [UOp; 10] = [UOp::TripleApb, UOp::TripleBqa, UOp::QuadApbG1, UOp::QuadCq1G2, UOp::EmptyG2, UOp::QuotedSubject, UOp::QuotedObjectG1, UOp::Nested, UOp::TaggedApb, UOp::TaggedCq1];
-/// full alphabet (histories up to length 2, thorough 3)
+/// full alphabet (histories up to length 2; thorough: 3 against partners of length <= 1)
 const UOPS: [UOp; 16] = [
     UOp::TripleApb,
     UOp::TripleBqa,
@@ -1043,10 +1043,11 @@ fn pair_case(oa: &[UOp], ob: &[UOp]) -> Value {
 }
 
 /// operand histories, shortest first: all sequences (repetitions included) of length <= 3 (thorough 4)
-/// over the first alphabet and of length <= 2 (thorough 3) over the full alphabet. `true` = the history
+/// over the first alphabet and of length <= 2 (thorough 3, see `bounds`) over the full alphabet. `true` = the history
 /// uses the first alphabet only.
 fn sequences(thorough: bool) -> Vec<(Vec<UOp>, bool)> {
-    let (lo, lf) = bounds(thorough);
+    let (lo, lf, lx) = bounds(thorough);
+    let lf = lf.max(lx);
     let old_only = |s: &[UOp]| s.iter().all(|o| UOPS_OLD.contains(o));
     let mut all: Vec<(Vec<UOp>, bool)> = vec![(vec![], true)];
     let mut level: Vec<Vec<UOp>> = vec![vec![]];
@@ -1068,12 +1069,13 @@ fn sequences(thorough: bool) -> Vec<(Vec<UOp>, bool)> {
     all
 }
 
-/// (longest history over the first alphabet, longest history over the full alphabet)
-fn bounds(thorough: bool) -> (usize, usize) {
+/// (longest history over the first alphabet, longest history over the full alphabet, longest history
+/// over the full alphabet when the partner's history has length <= 1)
+fn bounds(thorough: bool) -> (usize, usize, usize) {
     if thorough {
-        (4, 3)
+        (4, 2, 3)
     } else {
-        (3, 2)
+        (3, 2, 2)
     }
 }
 
@@ -1175,7 +1177,7 @@ fn check_pair(oa: &[UOp], ob: &[UOp], out: &mut ShardOut, sample: bool) {
 
 fn part2(ctx: &Ctx, out: &mut ShardOut) {
     let seqs = sequences(ctx.thorough());
-    let (lo, lf) = bounds(ctx.thorough());
+    let (lo, lf, lx) = bounds(ctx.thorough());
     let lead = ctx.shard == 0;
     // Explicit-state search over database histories: every sequence is executed on a fresh real
     // database; histories that end in the same physical state are merged (the union call reads nothing
@@ -1228,8 +1230,12 @@ fn part2(ctx: &Ctx, out: &mut ShardOut) {
     }
     let n = reps.len();
     // a pair is in the bound when both operands are reached by first-alphabet histories of length <= lo,
-    // or both by (any) histories of length <= lf
-    let in_bound = |i: usize, j: usize| (rep_old_len[i] <= lo && rep_old_len[j] <= lo) || (reps[i].len() <= lf && reps[j].len() <= lf);
+    // or both by (any) histories of length <= lf, or one by a history of length <= lx and the other by a
+    // history of length <= 1
+    let in_bound = |i: usize, j: usize| {
+        let (a, b) = (reps[i].len(), reps[j].len());
+        (rep_old_len[i] <= lo && rep_old_len[j] <= lo) || (a <= lf && b <= lf) || (a.max(b) <= lx && a.min(b) <= 1)
+    };
     if lead {
         out.count("union_histories_per_operand", seqs.len() as u64);
         out.count("union_distinct_physical_operands", n as u64);
